@@ -59,7 +59,7 @@ Theorem gen_tree_clear_owned :
     Gen_TreeSet.pvDestroy false cnt root params = GenPrelude.Ok tt.
 Proof.
   intros cnt root params. unfold Gen_TreeSet.Clear, Gen_TreeSet.pvDestroy.
-  destruct (Z.eqb_spec root 0), (Z.eqb_spec params 0); subst; simpl;
+  destruct (Z.eqb_spec root 0), (Z.eqb_spec params 0); subst; cbn [negb andb orb];
     eexists; (split; [reflexivity|]); (split; [|reflexivity]); auto.
 Qed.
 
@@ -69,7 +69,7 @@ Theorem gen_tree_needs_crew_when_owning :
     Gen_TreeSet.Clear true cnt root params = GenPrelude.Stuck /\ Gen_TreeSet.pvDestroy true cnt root params = GenPrelude.Stuck.
 Proof.
   intros cnt root params H. unfold Gen_TreeSet.Clear, Gen_TreeSet.pvDestroy.
-  destruct (Z.eqb_spec root 0), (Z.eqb_spec params 0); subst; simpl; try tauto; split; reflexivity.
+  destruct (Z.eqb_spec root 0), (Z.eqb_spec params 0); subst; cbn [negb andb orb]; try tauto; split; reflexivity.
 Qed.
 
 (* ---------------------------------------------------------------- HashSet *)
@@ -86,7 +86,7 @@ Proof.
   intros nb cnt cap bk shrink. unfold Gen_HashSet.Clear, Gen_HashSet.pvDestroy, Gen_HashSet.pvDestroyB. destruct (Z.eqb_spec bk 0); subst.
   - do 3 eexists. split; [reflexivity|]. split; [auto|congruence].
   - destruct (Z.eqb_spec bk 0) as [E0|_]; [contradiction|].
-    destruct shrink; simpl; [|destruct (Z.eqb nb 0)]; do 3 eexists; (split; [reflexivity|]); split; try congruence;
+    destruct shrink; cbn [negb andb orb]; [|destruct (Z.eqb nb 0)]; do 3 eexists; (split; [reflexivity|]); split; try congruence;
       intros _; repeat split; auto; discriminate.
 Qed.
 
